@@ -155,6 +155,7 @@ static bool set_glob_attr(const char *k, const char *v) {
         n = parse_blob(v, &p); if (n < 0) return false;
         free(vp_glob.icon); vp_glob.icon = p; vp_glob.icon_len = (size_t)n; vp_glob.icon_present = 1; return true;
     }
+    if (!strcmp(k, "emptyrep")) { vp_glob.empty_block = !strcmp(v, "block"); return !strcmp(v, "block") || !strcmp(v, "null"); }
     if (!strcmp(k, "fname")) {
         if (!strcmp(v, "none")) { free(vp_glob.fname); vp_glob.fname = NULL; vp_glob.fname_len = 0; vp_glob.fname_present = 0; return true; }
         n = parse_blob(v, &p); if (n < 0) return false;
@@ -299,15 +300,7 @@ static void run_line(char *line) {
         vp_sleep_hook = NULL;
         show_state(I, 0);
         if (lin) { show_fsm(M); show_fsm(S); }
-        if (!lin && (g_nest.armed || g_nest_ran)) {
-            if (g_nest.armed) {                            /* never fired: handled right after the outer frame */
-                vp_print_end(); vp_rotate_tx();
-                nest_fire();
-            } else {                                       /* fired inside: the outer `end` line without the nested delta */
-                vp_print_end_less(g_nest_l1, g_nest_l0, g_nest_b1, g_nest_b0); vp_rotate_tx();
-            }
-            fputs(g_nest_buf, vp_out); free(g_nest_buf); g_nest_buf = NULL; g_nest_ran = 0;
-        }
+
     } else if (!strcmp(op, "nest")) {
         int J = nt >= 2 ? parse_idx(tok[1], VP_MAX_IFACE) : -1;
         bool zero = (nt == 5 && !strcmp(tok[3], "zero"));
@@ -390,6 +383,17 @@ static void run_line(char *line) {
             else if (g_fsm_kind[A] == 1) switch_state_session(g_fsm[A], (int)in, "h");
             else switch_state_enumeration(g_fsm[A], (int)in, "h");
             show_fsm(A);
+        } else if (!strcmp(tok[1], "stepj")) {
+            /* fsm stepj A input d: the step with the clock moving on by d ms right after the function's first reading */
+            int64_t in; uint64_t d;
+            if (nt != 5 || !g_fsm[A] || !parse_i64(tok[3], &in) || in < -2147483647LL || in > 2147483647LL || !parse_u64(tok[4], &d) || d > 100000000ULL) { bad(); goto end; }
+            vp_clock_jump = d;
+            if (g_fsm_kind[A] == 0) switch_state_mapping(g_fsm[A], (int)in, "h");
+            else if (g_fsm_kind[A] == 1) switch_state_session(g_fsm[A], (int)in, "h");
+            else switch_state_enumeration(g_fsm[A], (int)in, "h");
+            if (vp_clock_jump) { vp_clock_ms += vp_clock_jump; vp_clock_jump = 0; }     /* no reading at all: time has passed all the same */
+            show_fsm(A);
+            fprintf(vp_out, "now %llu\n", (unsigned long long)vp_clock_ms);
         } else if (!strcmp(tok[1], "show")) { show_fsm(A); }
         else bad();
     } else if (!strcmp(op, "map")) {
@@ -516,6 +520,16 @@ static void run_line(char *line) {
         bad();
     }
 end:
+    if (!strcmp(op, "rx") && (g_nest.armed || g_nest_ran)) {     /* also after a rejected `rx`: the deferred frame follows it */
+        vp_sleep_hook = NULL;
+        if (g_nest.armed) {                            /* never fired: handled right after the outer frame */
+            vp_print_end(); vp_rotate_tx();
+            nest_fire();
+        } else {                                       /* fired inside: the outer `end` line without the nested delta */
+            vp_print_end_less(g_nest_l1, g_nest_l0, g_nest_b1, g_nest_b0); vp_rotate_tx();
+        }
+        fputs(g_nest_buf, vp_out); free(g_nest_buf); g_nest_buf = NULL; g_nest_ran = 0;
+    }
     vp_print_end();
     vp_rotate_tx();
 }
